@@ -6,6 +6,7 @@ decide WHICH two current nodes are merged at each step; they are an oracle: the 
 Identified inputs are normalised to their ids before anything else happens, so both input forms share this model.
 -/
 import Hpv.SortingProofs
+import Hpv.SortingPolicyProofs
 
 namespace Hpv.Props.C13
 open Hpv.Sorting
@@ -46,10 +47,34 @@ theorem permutation_positions (n : Nat) (trace : List (Nat × Nat)) (t : Tree Na
     ∃ res, argsortPos n trace = some res ∧ res.Perm (List.range n) :=
   ⟨t.inorder, (argsortPos_perm n trace t h).1, (argsortPos_perm n trace t h).2⟩
 
+/-- **The clustering policy is total** (`_hierarchical_cluster`: similarity matrix with zero diagonal, first maximum, the
+"nothing similar is left" branch that merges the last two clusters): for EVERY similarity measure - an oracle that may
+answer anything for any pair of current clusters in any round - and every epsilon, negative ones included, no round pops
+outside its list, and the loop ends with one tree whose leaves are exactly the input items. So `argsort` as a whole
+returns a permutation of `0..n-1` for every non-empty input, with no assumption about which merges happen. -/
+theorem policy_permutation (sim : List (Tree κ) → Nat → Nat → Int) (eps : Int) (source : List κ) (hne : source ≠ []) :
+    ∃ res, argsortPolicy sim eps source = some res ∧ res.Perm (List.range source.length) ∧
+      (res.map (source[·]?)).Perm (source.map some) :=
+  argsortPolicy_spec sim eps source hne
+
+/-- what the policy pops in one round always exists (`n >= 2` clusters), whatever the similarities are -/
+theorem policy_pops_valid (n : Nat) (hn : 2 ≤ n) (s : Nat → Nat → Int) (eps : Int) :
+    (choose n s eps).1 < n ∧ (choose n s eps).2 + 1 < n :=
+  choose_valid n hn s eps
+
+/-- a round that pops a higher and then a lower position is a step of the trace model the other theorems speak about -/
+theorem policy_step_is_trace_step (nodes : List (Tree κ)) (hi lo : Nat) (h : lo < hi) :
+    popTwice nodes hi lo = clusterStep nodes hi lo :=
+  popTwice_eq_clusterStep nodes hi lo h
+
 -- non-vacuity: the recorded trace of a 5-item run, and an input with a repeated id
 example : argsort [10, 20, 30, 40, 50] [(4, 0), (3, 1), (2, 1), (1, 0)] = some [4, 0, 2, 3, 1] := by decide
 example : argsort [7, 7, 8] [(2, 1), (1, 0)] = some [2, 0, 1] := by decide
 example : argsortPos 3 [(2, 1), (1, 0)] = some [2, 1, 0] ∧ argsortPos 2 [(1, 0)] = some [1, 0] := by decide
 example : ∃ t, cluster [(2, 1), (1, 0)] ([7, 7, 8].map Tree.leaf) = some [t] := ⟨_, rfl⟩
+-- the policy on three items: similarity 5 for the pair (0, 2), nothing else similar; then the epsilon branch
+example : argsortPolicy (fun nodes r c => if nodes.length = 3 ∧ r = 0 ∧ c = 2 then 5 else 0) 0 [10, 20, 30] = some [2, 0, 1] := by decide
+-- a NEGATIVE epsilon with no similarity at all: the maximum is the diagonal's zero at (0, 0), position 0 is popped twice
+example : choose 3 (fun _ _ => 0) (-1) = (0, 0) ∧ argsortPolicy (fun _ _ _ => 0) (-1) [10, 20, 30] = some [2, 0, 1] := by decide
 
 end Hpv.Props.C13
